@@ -107,7 +107,13 @@ def run (j : Json) : Except String Json := do
       | x :: _ =>
         let d := deepcopyI c sDeep x
         let p := pickleI sPickle x
-        [("copy", copyJson R defaults x (copyI x)),
+        let chainKinds := match optField j "chain" with
+          | some (Json.arr a) => a.toList.filterMap (fun (k : Json) => k.getStr?.toOption)
+          | _ => []
+        let chained := chainKinds.foldl (fun y k =>
+          if k == "deepcopy" then deepcopyI c sDeep y else if k == "pickle" then pickleI sPickle y else copyI y) x
+        [("chain", copyJson R defaults x chained),
+         ("copy", copyJson R defaults x (copyI x)),
          ("deepcopy", copyJson R defaults x d),
          ("pickle", copyJson R defaults x p),
          ("runFresh", Json.arr (stepsJson c fields O x ops).toArray),
